@@ -280,10 +280,27 @@ func c13a(c *Ctx) {
 	sinkFns := []string{"parser.Parser.parseCommandStatement", "parser.Parser.parseMartStatement", "parser.Parser.parseMapscriptsStatement", "parser.Parser.parseSwitchStatement",
 		"parser.Parser.parseLeafBooleanExpression", "parser.Parser.parseConditionVarOperator", "parser.Parser.parseConstant"}
 	total := 0
+	// each listed function together with its private helpers (unitOf)
+	var sinkUnits []*ssa.Function
+	seenUnit := map[*ssa.Function]bool{}
 	for _, name := range sinkFns {
-		fn := c.Fn(name)
-		if fn == nil {
+		root := c.Fn(name)
+		if root == nil {
 			continue
+		}
+		for _, m := range c.unitOf(root) {
+			if !seenUnit[m.fn] && m.fn != try {
+				seenUnit[m.fn] = true
+				sinkUnits = append(sinkUnits, m.fn)
+			}
+		}
+	}
+	for _, fn := range sinkUnits {
+		isRoot := false
+		for _, name := range sinkFns {
+			if c.Fn(name) == fn {
+				isRoot = true
+			}
 		}
 		n := 0
 		check := func(v ssa.Value, site ssa.Instruction, kind string) {
@@ -331,7 +348,16 @@ func c13a(c *Ctx) {
 			}
 		})
 		total += n
-		c.Check(n > 0, fn.Name()+"/sinks", c.W.FuncPos(fn), fmt.Sprintf("%d accumulation sites", n), "no accumulation site found any more")
+		if !isRoot {
+			continue // a helper need not accumulate anything itself
+		}
+		nUnit := n
+		for _, m := range c.unitOf(fn) {
+			if m.fn != fn {
+				nUnit++ // counted when the helper itself is visited
+			}
+		}
+		c.Check(nUnit > 0, fn.Name()+"/sinks", c.W.FuncPos(fn), fmt.Sprintf("%d accumulation sites", n), "no accumulation site found any more")
 	}
 	// what is stored is the accumulated string
 	type fieldSink struct{ fn, pkg, typ, field, want string }
@@ -356,7 +382,22 @@ func c13a(c *Ctx) {
 			c.Check(strings.Contains(v, s.want), fmt.Sprintf("%s/%s.%s#%d", fn.Name(), s.typ, s.field, n), pos, s.typ+"."+s.field+" holds the substituted, joined value", s.typ+"."+s.field+" is "+pretty(v)+", which is not the joined result of the constant-substituted tokens")
 		}
 		for _, st := range storesToField(fn, s.pkg, s.typ, s.field) {
-			chk(c.term(fn, st.Val), c.W.Pos(st.Pos()))
+			v := c.term(fn, st.Val)
+			if !strings.Contains(v, s.want) && !strings.HasPrefix(s.want, "Literal=") {
+				// a value handed back by a helper: every origin must be the joined result
+				os := c.originsOf(fn, st.Val, nil, 2)
+				all := len(os) > 0
+				for _, o := range os {
+					ot := c.term(o.fn, o.v)
+					if !strings.Contains(ot, s.want) && ot != `""` {
+						all = false
+					}
+				}
+				if all {
+					v = s.want + "…) (returned by a helper)"
+				}
+			}
+			chk(v, c.W.Pos(st.Pos()))
 		}
 		// composite literals stored whole (local struct values)
 		instrs(fn, func(in ssa.Instruction) {
